@@ -726,6 +726,33 @@ def r8_display_lists_accumulate(ctx, rep):
     c15.r13_metadata_accumulates(ctx, rep)
 
 
+def r9_visible_only_through_the_filter(ctx, rep):
+    """`visible` says "this entity has a page / may be linked".  For entities that are members of another one it is the display
+    filter's verdict: prune() runs the members through filter_display and marks those that remain.  A statement that marks *another*
+    entity visible anywhere else (in correlate, say) overrides the filter - for a type of another unit that `display` or
+    `hide_undoc` removed, every link to it then points at a page that is never written."""
+    py = ctx.py
+    n = 0
+    for cname, ci in py.classes.items():
+        if ci.module != "sourceform":
+            continue
+        for mname, fn in ci.methods.items():
+            for a in ast.walk(fn):
+                if not (isinstance(a, ast.Assign) and isinstance(a.value, ast.Constant) and a.value.value is True):
+                    continue
+                for t in a.targets:
+                    if isinstance(t, ast.Attribute) and t.attr == "visible" and ast.unparse(t.value) != "self":
+                        n += 1
+                        in_prune = mname == "prune" or mname.startswith("_prune") or "prune" in mname
+                        rep.ob(f"{cname}.{mname}: `{ast.unparse(a)}`", in_prune,
+                               "members are marked by the pruning pass, after the display filter" if in_prune else
+                               f"`{ast.unparse(t.value)}` is marked visible outside the pruning pass: whatever the display filter decides "
+                               f"about it (it may belong to another unit) is overridden, and links to it are emitted although it has no page",
+                               py.nloc(a))
+    if n < 3:
+        raise AnalysisError(f"only {n} statements marking members visible found")
+
+
 RULES = [
     RuleSpec("C05.R5", r5_graph_links_and_constructor, "graph links are visibility-gated; constructors follow their type", floor=1),
     RuleSpec("C05.R1", r1_prune_coverage, "prune covers every rendered child collection", floor=20),
@@ -735,4 +762,5 @@ RULES = [
     RuleSpec("C05.R6", r6_display_inheritance, "display selection is inherited through the parent, not re-installed", floor=2),
     RuleSpec("C05.R7", r7_python_link_producers, "links built in Python are produced only for visible entities", floor=2),
     RuleSpec("C05.R8", r8_display_lists_accumulate, "repeated `display:` lines accumulate (shared with C15.R13)", floor=2),
+    RuleSpec("C05.R9", r9_visible_only_through_the_filter, "members become visible only through the display filter", floor=3),
 ]
